@@ -15,6 +15,9 @@ type c03Case struct {
 	Spec  *CfgSpec `json:"spec"`
 	Debug bool     `json:"debug"`
 	Req   Req      `json:"request"`
+	// Toggled: the request was first served with debug mode ON and then, after SetDebug(false), again on the same
+	// middleware; the second answer is the one judged (as a debug-off answer)
+	Toggled bool `json:"toggled,omitempty"`
 }
 
 func isACAllowOrExpose(k string) bool {
@@ -144,7 +147,8 @@ type c03Env struct {
 	spec    *CfgSpec
 	sem     *Sem
 	mw      [2]*cors.Middleware
-	origins []string // hostile Origin values derived from the configuration
+	mwT     *cors.Middleware // toggles between the debug modes (see c03RunCase)
+	origins []string         // hostile Origin values derived from the configuration
 	allowed []string
 }
 
@@ -156,6 +160,9 @@ func newC03Env(c *CfgSpec) (*c03Env, error) {
 			return nil, err
 		}
 		e.mw[d] = mw
+	}
+	if mwT, err := cors.NewMiddleware(c.Config()); err == nil {
+		e.mwT = mwT
 	}
 	inst := allowedInstances(e.sem.Pats)
 	if len(inst) == 0 {
@@ -212,7 +219,7 @@ func c03RunCase(r *Run, l *Local, e *c03Env, debug bool, q Req) {
 	if debug {
 		d = 1
 	}
-	l.cur = func() any { return c03Case{e.spec, debug, trimReq(q)} }
+	l.cur = func() any { return c03Case{Spec: e.spec, Debug: debug, Req: trimReq(q)} }
 	o := serve(e.mw[d], q)
 	l.evals++
 	if len(o.get(hACAO)) > 0 {
@@ -222,7 +229,28 @@ func c03RunCase(r *Run, l *Local, e *c03Env, debug bool, q Req) {
 	}
 	for _, p := range c03Invariants(e.sem, debug, q, o) {
 		cfg := e.spec.Config()
-		r.Violate(p[0], "C03-invariants", fmt.Sprintf("%s | request %s | response %s | debug=%v | %s", p[1], reqString(q), o, debug, cfgString(&cfg)), c03Case{e.spec, debug, trimReq(q)})
+		r.Violate(p[0], "C03-invariants", fmt.Sprintf("%s | request %s | response %s | debug=%v | %s", p[1], reqString(q), o, debug, cfgString(&cfg)), c03Case{Spec: e.spec, Debug: debug, Req: trimReq(q)})
+	}
+	// the same request on ONE middleware in both modes: first with debug on (where a failing preflight is answered with
+	// an ok status and partial headers), then with debug off - the second answer must satisfy the debug-off invariants and
+	// equal the answer of the middleware that never was in debug mode (lesson of seeded change C03-kb: something remembered
+	// from a debug-mode exchange and reused with debug off)
+	if !debug && e.mwT != nil && hashString(reqString(q))%3 == 0 {
+		e.mwT.SetDebug(true)
+		serve(e.mwT, q)
+		e.mwT.SetDebug(false)
+		oT := serve(e.mwT, q)
+		l.evals++
+		l.counters["toggled_exchanges"]++
+		cs := c03Case{Spec: e.spec, Debug: false, Req: trimReq(q), Toggled: true}
+		for _, p := range c03Invariants(e.sem, false, q, oT) {
+			cfg := e.spec.Config()
+			r.Violate(p[0], "C03-invariants", fmt.Sprintf("%s | request %s (served with debug on, then again with debug off) | response %s | %s", p[1], reqString(q), oT, cfgString(&cfg)), cs)
+		}
+		if !oT.Equal(o) {
+			cfg := e.spec.Config()
+			r.Violate("debug-history-shows", "C03-invariants", fmt.Sprintf("with debug off the answer to %s depends on whether the same request was served in debug mode before: %s vs %s | %s", reqString(q), oT, o, cfgString(&cfg)), cs)
+		}
 	}
 }
 
@@ -292,6 +320,9 @@ func TestVerif_C03(t *testing.T) {
 			t.Fatalf("replay: %v", err)
 		}
 		c03RunCase(r, l, e, rc.Debug, expandReq(rc.Req))
+		if rc.Toggled && hashString(reqString(expandReq(rc.Req)))%3 != 0 {
+			t.Fatalf("replay: toggled case whose request is not in the toggled third")
+		}
 		r.merge(l)
 		r.Finish(0)
 		return
@@ -344,7 +375,7 @@ func TestVerif_C03(t *testing.T) {
 				c03RunCase(r, l, e, dbg, q)
 				nt(q, dbg)
 				if l.Batch%5000 == 7 && i < 2 {
-					l.Sample("random", c03Case{c, dbg, trimReq(q)})
+					l.Sample("random", c03Case{Spec: c, Debug: dbg, Req: trimReq(q)})
 				}
 			}
 		}
@@ -390,7 +421,7 @@ func TestVerif_C03(t *testing.T) {
 				}
 			}
 			if l.Batch == 1 && i == 0 {
-				l.Sample("rich-config", c03Case{c, false, buildReq("GET", []string{e.origins[len(e.origins)-1]}, nil, nil, nil, nil)})
+				l.Sample("rich-config", c03Case{Spec: c, Req: buildReq("GET", []string{e.origins[len(e.origins)-1]}, nil, nil, nil, nil)})
 			}
 		}
 	})
